@@ -603,6 +603,7 @@ func main() {
 	r.Rule("full product: every corpus file of every runtime flavour + the repository's three google-v2 example schemas x {apiversion v1,v2} x {single file, file per message} x {unsafe off,on} x {specialname none, Size}; each request is run twice through the plug-in built from the current sources: no error, byte-identical responses, documented file names (single: <prefix>.pb.fm.go; per message: <prefix>_<lower(message)>.pb.fm.go, pairwise distinct also case-insensitively, one per message), every file parses; per-message function bodies equal the single-file ones; enableunsafedecode only adds the SetMode lines (one per message); requests naming two files to generate (8 file pairs per runtime, two of them the two files of ONE Go package, both orders, single-file and per-message mode) return exactly the files of the two single-file requests; and the outputs of 5 option sets are compiled together with the runtime's message types (matching apiversion). distinct_nontrivial = (schema, option) requests that produced output and passed the per-request checks.")
 	r.Assume("invalid option VALUES are outside the quantifier; apiversion is compiled only with its matching runtime (v1: gogo, legacy; v2: gv2, gv1)")
 	r.Assume("schemas with proto3 optional are only generated for the google flavours (protoc-gen-gogo does not support them)")
+	os.RemoveAll(run) // Finish exits the process: the deferred removal above would never run
 	r.Finish()
 }
 
